@@ -11,7 +11,7 @@
    CSetParentSrv, CApplyMaterial (Some _)) are copies of received messages: `relayed`.
 
    The walk through the model is in OptInLemmas.v (a generic frame invariant); this file
-   instantiates it three times (trivially: configuration is constant; lightly: assets, entity
+   instantiates it (trivially: configuration is constant, command buffers; lightly: assets, entity
    messages; fully: component types) and lifts the result to all traces of the global system. *)
 From stdpp Require Import gmap list.
 From Coq Require Import NArith Lia.
@@ -92,22 +92,27 @@ Definition opted (pr : peer_state) (x : uuid * tyid * value) : Prop :=
 Definition Qf (pr : peer_state) (o : frame_oracle) (x : uuid * tyid * value) : Prop :=
   opted pr x /\ (In x (t_queue pr) \/ detected_in pr o x).
 
+(* keys under which commands are buffered: those of the systems of the schedule (flushed by the
+   frame), or keys that were already in use *)
+Definition key_fine (pr : peer_state) (k : N) : Prop :=
+  (exists s, In s (p_order pr) /\ sys_key s = k) \/ is_Some (p_cmdq pr !! k).
+
 (* ---------- the three instances of the invariant ---------------------------------------------- *)
 
 Definition TInv (pr : peer_state) : peer_state -> Prop :=
   Inv (p_sync_types pr) (t_mat pr) (t_mesh pr) (t_audio pr) (p_id pr) (p_order pr)
       (fun _ => True) (fun _ => True) (fun _ => True) (fun _ => True) 0 (fun _ => True)
-      (fun _ _ => True) True (fun _ => True).
+      (fun _ _ => True) True (fun _ => True) (fun _ => True).
 
 Definition LInv (pr : peer_state) : peer_state -> Prop :=
   Inv (p_sync_types pr) (t_mat pr) (t_mesh pr) (t_audio pr) (p_id pr) (p_order pr)
       (relayed pr) (known pr) (marked pr) (key_ok pr) (p_next_ent pr) (fun x => known pr x.1.1)
-      (fun _ _ => True) True is_app_cmd.
+      (fun _ _ => True) True is_app_cmd (key_fine pr).
 
 Definition FInv (pr : peer_state) (o : frame_oracle) : peer_state -> Prop :=
   Inv (p_sync_types pr) (t_mat pr) (t_mesh pr) (t_audio pr) (p_id pr) (p_order pr)
       (relayed pr) (known pr) (marked pr) (key_ok pr) (p_next_ent pr) (Qf pr o)
-      val_typed (In T_SKIN (p_sync_types pr)) (fun c => is_app_cmd c /\ cmd_typed c).
+      val_typed (In T_SKIN (p_sync_types pr)) (fun c => is_app_cmd c /\ cmd_typed c) (key_fine pr).
 
 Lemma relayed_typed pr u t v : typed_state pr -> relayed pr (MComp u t v) -> val_typed t v.
 Proof.
@@ -159,6 +164,7 @@ Proof.
   intros Ha. constructor; try reflexivity.
   - intros d m [].
   - intros k cs c Hl Hin. eapply pending_cmd_ok; try eassumption; intros; exact I.
+  - intros k cs Hl. right. exists cs. exact Hl.
   - exact Ha.
   - intros [[u t] v] Hin. do 4 right. left. exists t, v. exact Hin.
   - intros from l m Hl Hin. left. exists from, l. split; assumption.
@@ -179,8 +185,9 @@ Proof.
   - intros e He. right. right. exact He.
   - intros c Hc. apply app_cmd_ok_any; [exact Hc|intros; exact I].
   - apply LInv_start. exact Ha.
+  - intros s Hs. left. exists s. split; [exact Hs|reflexivity].
   - intros pre t post x _ HI (e & en & c & Hl & Hs & _).
-    destruct (i_ents _ _ _ _ _ _ _ _ _ _ _ _ _ _ _ _ HI _ _ Hl) as (Hk & _). apply Hk. exact Hs.
+    destruct (i_ents _ _ _ _ _ _ _ _ _ _ _ _ _ _ _ _ _ HI _ _ Hl) as (Hk & _). apply Hk. exact Hs.
 Qed.
 
 Lemma FInv_start pr o :
@@ -190,6 +197,7 @@ Proof.
   - intros d m [].
   - intros k cs c Hl Hin. pose proof (ts_cmdq pr Ht _ _ _ Hl Hin) as Hc.
     eapply pending_cmd_ok; try eassumption; intros; subst c; exact Hc.
+  - intros k cs Hl. right. exists cs. exact Hl.
   - intros n c Hin. split; [eapply Ha; eassumption|eapply ts_app; eassumption].
   - intros [[u t] v] Hin. split; [|left; exact Hin]. destruct (Hq _ _ _ Hin) as [Hw Hs].
     split; [|split; assumption]. do 4 right. left. exists t, v. exact Hin.
@@ -217,6 +225,7 @@ Proof.
   - intros e He. right. right. exact He.
   - intros c [Hc Hty]. apply app_cmd_ok_any; [exact Hc|]. intros e t v ->. exact Hty.
   - apply FInv_start; assumption.
+  - intros s Hs. left. exists s. split; [exact Hs|reflexivity].
   - intros pre t post x Hord HI Hw.
     assert (Hin : In t (p_sync_types pr)).
     { apply Ho. rewrite Hord. apply in_or_app. right. left. reflexivity. }
@@ -226,7 +235,7 @@ Proof.
     split; [exact Hb|]. right. exists pre, t, post. split; [exact Hord|]. split; [exact Hw|].
     split; [exact Hin|].
     destruct Hw as (e & en & c & Hl & _ & Hc & _ & Hm).
-    destruct (i_ents _ _ _ _ _ _ _ _ _ _ _ _ _ _ _ _ HI _ _ Hl) as (_ & _ & Hty).
+    destruct (i_ents _ _ _ _ _ _ _ _ _ _ _ _ _ _ _ _ _ HI _ _ Hl) as (_ & _ & Hty).
     specialize (Hty _ _ Hc). destruct (c_val c); destruct Hm as [-> _].
     + left. reflexivity.
     + right. split; [reflexivity|exact Hty].
@@ -254,7 +263,96 @@ Theorem frame_config pr o :
   p_id (frame pr o) = p_id pr /\ p_order (frame pr o) = p_order pr.
 Proof.
   destruct (p_panic pr) eqn:Hp; [rewrite frame_panicked by congruence; tauto|].
-  destruct (TInv_frame pr o Hp) as [H1 H2 H3 H4 H5 H6 _ _ _ _ _ _ _ _ _]. tauto.
+  destruct (TInv_frame pr o Hp) as [H1 H2 H3 H4 H5 H6 _ _ _ _ _ _ _ _ _ _]. tauto.
+Qed.
+
+(* ---- the command buffers are empty between frames ---- *)
+
+Definition KInv (pr0 : peer_state) (K : N -> Prop) : peer_state -> Prop :=
+  Inv (p_sync_types pr0) (t_mat pr0) (t_mesh pr0) (t_audio pr0) (p_id pr0) (p_order pr0)
+      (fun _ => True) (fun _ => True) (fun _ => True) (fun _ => True) 0 (fun _ => True)
+      (fun _ _ => True) True (fun _ => True) K.
+
+Lemma trivial_cmd_ok c : cmd_ok (fun _ => True) (fun _ => True) (fun _ _ => True) c.
+Proof. destruct c; simpl; try exact I; tauto. Qed.
+
+Lemma KInv_any pr0 pr (K : N -> Prop) :
+  p_sync_types pr = p_sync_types pr0 -> t_mat pr = t_mat pr0 -> t_mesh pr = t_mesh pr0 ->
+  t_audio pr = t_audio pr0 -> p_id pr = p_id pr0 -> p_order pr = p_order pr0 ->
+  (forall k cs, p_cmdq pr !! k = Some cs -> K k) -> KInv pr0 K pr.
+Proof.
+  intros E1 E2 E3 E4 E5 E6 Hk. constructor; try assumption; try (intros; exact I);
+    try (intros; repeat split; exact I).
+  - intros d m _. destruct m; simpl; try exact I; tauto.
+  - intros k cs c _ _. apply trivial_cmd_ok.
+  - apply N.le_0_l.
+Qed.
+
+Lemma apply_cmds_keys pr cs :
+  KInv pr (fun k => is_Some (p_cmdq pr !! k)) (apply_cmds pr cs).
+Proof.
+  apply Inv_apply_cmds; try (intros; exact I).
+  - apply KInv_any; try reflexivity. intros k cs' Hl. exists cs'. exact Hl.
+  - intros c _. apply trivial_cmd_ok.
+Qed.
+
+Lemma flush_keys (l : list sysid) : forall a k,
+  is_Some (p_cmdq (foldl (fun pr s =>
+             let k := sys_key s in
+             match p_cmdq pr !! k with
+             | Some cs => apply_cmds (pr <| p_cmdq := delete k (p_cmdq pr) |>) cs
+             | None => pr
+             end) a l) !! k) ->
+  is_Some (p_cmdq a !! k) /\ forall s, In s l -> sys_key s <> k.
+Proof.
+  induction l as [|s l IH]; intros a k Hk; [split; [exact Hk|intros s []]|].
+  cbn [foldl] in Hk. apply IH in Hk as [Hk Hl]. cbv zeta in Hk.
+  assert (Hs : is_Some (p_cmdq a !! k) /\ sys_key s <> k).
+  { destruct (p_cmdq a !! sys_key s) as [cs|] eqn:E.
+    - destruct Hk as [x Hx].
+      destruct (i_keys _ _ _ _ _ _ _ _ _ _ _ _ _ _ _ _ _ (apply_cmds_keys (a <| p_cmdq := delete (sys_key s) (p_cmdq a) |>) cs) _ _ Hx)
+        as [y Hy].
+      cbn [p_cmdq set] in Hy. apply lookup_delete_Some in Hy as [Hne Hy]. split; [exists y; exact Hy|exact Hne].
+    - split; [exact Hk|]. intros <-. rewrite E in Hk. destruct Hk as [x Hx]. discriminate. }
+  destruct Hs as [Hs1 Hs2]. split; [exact Hs1|]. intros s' [<-|Hin]; [exact Hs2|apply Hl; exact Hin].
+Qed.
+
+Lemma flush_empties pr :
+  (forall k, is_Some (p_cmdq pr !! k) -> exists s, In s (p_order pr) /\ sys_key s = k) ->
+  p_cmdq (flush pr) = ∅.
+Proof.
+  intros Hkeys. apply map_empty. intros k. destruct (p_cmdq (flush pr) !! k) as [cs|] eqn:E; [exfalso|reflexivity].
+  unfold flush in E. destruct (flush_keys (p_order pr) pr k) as [H1 H2]; [exists cs; exact E|].
+  destruct (Hkeys k H1) as (s & Hs & Hk). exact (H2 s Hs Hk).
+Qed.
+
+(* every system buffers its commands under its own key, and the final flush of the frame applies
+   the buffers of all systems of the schedule *)
+Theorem frame_cmdq_empty pr o :
+  p_panic pr = None -> p_cmdq pr = ∅ -> p_panic (frame pr o) = None -> p_cmdq (frame pr o) = ∅.
+Proof.
+  intros Hp Hq Hpf. rewrite (frame_unfold pr o Hp) in *.
+  set (K := fun k => exists s, In s (p_order pr) /\ sys_key s = k).
+  assert (H0 : KInv pr K (frame_start pr o)).
+  { apply Inv_frame_start; try (intros; exact I).
+    apply KInv_any; try reflexivity. intros k cs Hl. cbn [p_cmdq set] in Hl. rewrite Hq, lookup_empty in Hl. discriminate. }
+  pose proof (i_order _ _ _ _ _ _ _ _ _ _ _ _ _ _ _ _ _ H0) as Eo. rewrite Eo in *.
+  assert (Hm : KInv pr K (frame_mid pr o (p_order pr))).
+  { apply Inv_run_systems; try (intros; exact I); try exact H0.
+    - intros c _. apply trivial_cmd_ok.
+    - intros s Hs. exists s. split; [exact Hs|reflexivity]. }
+  destruct (p_panic (frame_mid pr o (p_order pr))) eqn:Epm.
+  - unfold last_schedule in Hpf. cbn [p_panic set] in Hpf. congruence.
+  - unfold last_schedule. cbn [p_cmdq set]. apply flush_empties.
+    rewrite (i_order _ _ _ _ _ _ _ _ _ _ _ _ _ _ _ _ _ Hm). intros k [cs Hk].
+    exact (i_keys _ _ _ _ _ _ _ _ _ _ _ _ _ _ _ _ _ Hm _ _ Hk).
+Qed.
+
+(* with empty command buffers, `relayed` is "sits in an inbox" *)
+Lemma relayed_inbox pr m :
+  p_cmdq pr = ∅ -> relayed pr m -> exists from l, n_inbox pr !! from = Some l /\ In m l.
+Proof.
+  intros Hq [H|(k & cs & c & Hl & _)]; [exact H|]. rewrite Hq, lookup_empty in Hl. discriminate.
 Qed.
 
 Lemma cmd_ok_relays (inb : msg -> Prop) (kn : uuid -> Prop) (vt : tyid -> value -> Prop) c m :
@@ -273,8 +371,8 @@ Theorem relayed_frame pr o m :
 Proof.
   intros Hp Ha Hr. pose proof (LInv_frame pr o Hp Ha) as HI.
   destruct Hr as [(from & l & Hl & Hin)|(k & cs & c & Hl & Hin & Hr)].
-  - eapply (i_inbox _ _ _ _ _ _ _ _ _ _ _ _ _ _ _ _ HI); eassumption.
-  - eapply cmd_ok_relays; [|exact Hr]. eapply (i_cmdq _ _ _ _ _ _ _ _ _ _ _ _ _ _ _ _ HI); eassumption.
+  - eapply (i_inbox _ _ _ _ _ _ _ _ _ _ _ _ _ _ _ _ _ HI); eassumption.
+  - eapply cmd_ok_relays; [|exact Hr]. eapply (i_cmdq _ _ _ _ _ _ _ _ _ _ _ _ _ _ _ _ _ HI); eassumption.
 Qed.
 
 (* a frame invents no uuid *)
@@ -283,14 +381,14 @@ Theorem known_frame pr o u :
 Proof.
   intros Hp Ha Hk. pose proof (LInv_frame pr o Hp Ha) as HI.
   destruct Hk as [(e & Hl)|[(e & Hl)|[(e & en & Hl & Hs)|[(en & Hl & Hm)|[(t & v & Hq)|[Hr|(k & cs & e & Hl & Hin)]]]]]].
-  - eapply (i_u2e _ _ _ _ _ _ _ _ _ _ _ _ _ _ _ _ HI); eassumption.
-  - eapply (i_e2u _ _ _ _ _ _ _ _ _ _ _ _ _ _ _ _ HI); eassumption.
-  - destruct (i_ents _ _ _ _ _ _ _ _ _ _ _ _ _ _ _ _ HI _ _ Hl) as (H & _). apply H. exact Hs.
-  - destruct (i_ents _ _ _ _ _ _ _ _ _ _ _ _ _ _ _ _ HI _ _ Hl) as (_ & H & _).
+  - eapply (i_u2e _ _ _ _ _ _ _ _ _ _ _ _ _ _ _ _ _ HI); eassumption.
+  - eapply (i_e2u _ _ _ _ _ _ _ _ _ _ _ _ _ _ _ _ _ HI); eassumption.
+  - destruct (i_ents _ _ _ _ _ _ _ _ _ _ _ _ _ _ _ _ _ HI _ _ Hl) as (H & _). apply H. exact Hs.
+  - destruct (i_ents _ _ _ _ _ _ _ _ _ _ _ _ _ _ _ _ _ HI _ _ Hl) as (_ & H & _).
     do 3 right. left. apply H. exact Hm.
-  - exact (i_queue _ _ _ _ _ _ _ _ _ _ _ _ _ _ _ _ HI _ Hq).
+  - exact (i_queue _ _ _ _ _ _ _ _ _ _ _ _ _ _ _ _ _ HI _ Hq).
   - do 5 right. left. eapply relayed_frame; eassumption.
-  - destruct Hin as [Hin|Hin]; exact (i_cmdq _ _ _ _ _ _ _ _ _ _ _ _ _ _ _ _ HI _ _ _ Hl Hin).
+  - destruct Hin as [Hin|Hin]; exact (i_cmdq _ _ _ _ _ _ _ _ _ _ _ _ _ _ _ _ _ HI _ _ _ Hl Hin).
 Qed.
 
 (* (3) assets: an originated asset update has its class enabled on this peer (and, for the URL
@@ -303,8 +401,8 @@ Theorem originated_assets_enabled pr o :
      relayed pr (MAsset c a owner) \/ (class_enabled pr (KClass c) = true /\ owner = p_id pr)).
 Proof.
   intros Hp Ha. pose proof (LInv_frame pr o Hp Ha) as HI. split.
-  - intros dst a v Hin. exact (i_out _ _ _ _ _ _ _ _ _ _ _ _ _ _ _ _ HI _ _ Hin).
-  - intros dst c a owner Hin. pose proof (i_out _ _ _ _ _ _ _ _ _ _ _ _ _ _ _ _ HI _ _ Hin) as H.
+  - intros dst a v Hin. exact (i_out _ _ _ _ _ _ _ _ _ _ _ _ _ _ _ _ _ HI _ _ Hin).
+  - intros dst c a owner Hin. pose proof (i_out _ _ _ _ _ _ _ _ _ _ _ _ _ _ _ _ _ HI _ _ Hin) as H.
     simpl in H. destruct H as [H|[H1 H2]]; [left; exact H|right]. split; [|exact H2].
     destruct c; exact H1.
 Qed.
@@ -316,7 +414,7 @@ Theorem originated_subjects_known pr o :
     relayed pr m \/ forall u, In u (msg_subjects m) -> known pr u.
 Proof.
   intros Hp Ha dst m Hin. pose proof (LInv_frame pr o Hp Ha) as HI.
-  pose proof (i_out _ _ _ _ _ _ _ _ _ _ _ _ _ _ _ _ HI _ _ Hin) as H.
+  pose proof (i_out _ _ _ _ _ _ _ _ _ _ _ _ _ _ _ _ _ HI _ _ Hin) as H.
   destruct m; simpl in H; simpl msg_subjects; [| | | |right; intros ? []..].
   - destruct H as [H|H]; [left; exact H|right]. intros u' [<-|[]]. exact H.
   - destruct H as [H|[H1 H2]]; [left; exact H|right]. intros u' [<-|[<-|[]]]; assumption.
@@ -350,7 +448,7 @@ Theorem unmarked_stays_untracked pr o e :
 Proof.
   intros Hp Ha Hn Hm Hlt. pose proof (LInv_frame pr o Hp Ha) as HI.
   destruct (t_e2u (frame pr o) !! e) as [u|] eqn:E; [|reflexivity]. exfalso.
-  destruct (i_e2u _ _ _ _ _ _ _ _ _ _ _ _ _ _ _ _ HI _ _ E) as [_ [[x Hx]|[H|H]]].
+  destruct (i_e2u _ _ _ _ _ _ _ _ _ _ _ _ _ _ _ _ _ HI _ _ E) as [_ [[x Hx]|[H|H]]].
   - congruence.
   - exact (Hm H).
   - lia.
@@ -367,7 +465,7 @@ Theorem component_provenance pr o :
   forall dst u t v, In (dst, MComp u t v) (p_out (frame pr o)) -> comp_provenance pr o u t v.
 Proof.
   intros Hp Hq Ho Ht Ha dst u t v Hin. pose proof (FInv_frame pr o Hp Hq Ho Ht Ha) as HI.
-  exact (i_out _ _ _ _ _ _ _ _ _ _ _ _ _ _ _ _ HI _ _ Hin).
+  exact (i_out _ _ _ _ _ _ _ _ _ _ _ _ _ _ _ _ _ HI _ _ Hin).
 Qed.
 
 Theorem queued_at_detection pr o :
@@ -375,7 +473,7 @@ Theorem queued_at_detection pr o :
   forall x, In x (t_queue (frame pr o)) -> opted pr x /\ (In x (t_queue pr) \/ detected_in pr o x).
 Proof.
   intros Hp Hq Ho Ht Ha x Hin. pose proof (FInv_frame pr o Hp Hq Ho Ht Ha) as HI.
-  exact (i_queue _ _ _ _ _ _ _ _ _ _ _ _ _ _ _ _ HI _ Hin).
+  exact (i_queue _ _ _ _ _ _ _ _ _ _ _ _ _ _ _ _ _ HI _ Hin).
 Qed.
 
 Lemma relayed_frame_typed pr o u t v :
@@ -390,19 +488,19 @@ Proof.
   intros Hp Hq Ho Ht Ha. pose proof (FInv_frame pr o Hp Hq Ho Ht Ha) as HI.
   destruct (frame_config pr o) as (Ety & _ & _ & _ & _ & Eor).
   split; [|split; [|split]].
-  - intros u t v Hin. destruct (i_queue _ _ _ _ _ _ _ _ _ _ _ _ _ _ _ _ HI _ Hin) as [(_ & Hw & Hs) _].
+  - intros u t v Hin. destruct (i_queue _ _ _ _ _ _ _ _ _ _ _ _ _ _ _ _ _ HI _ Hin) as [(_ & Hw & Hs) _].
     split; [|exact Hs]. unfold wire_opted in *. rewrite Ety. exact Hw.
   - intros t Hin. rewrite Ety. apply Ho. rewrite <- Eor. exact Hin.
   - constructor.
-    + intros e en t c Hl Hc. destruct (i_ents _ _ _ _ _ _ _ _ _ _ _ _ _ _ _ _ HI _ _ Hl) as (_ & _ & H).
+    + intros e en t c Hl Hc. destruct (i_ents _ _ _ _ _ _ _ _ _ _ _ _ _ _ _ _ _ HI _ _ Hl) as (_ & _ & H).
       eapply H. exact Hc.
     + intros from l u t v Hl Hin. eapply relayed_typed; [exact Ht|].
-      eapply (i_inbox _ _ _ _ _ _ _ _ _ _ _ _ _ _ _ _ HI); eassumption.
-    + intros k cs c Hl Hin. pose proof (i_cmdq _ _ _ _ _ _ _ _ _ _ _ _ _ _ _ _ HI _ _ _ Hl Hin) as Hc.
+      eapply (i_inbox _ _ _ _ _ _ _ _ _ _ _ _ _ _ _ _ _ HI); eassumption.
+    + intros k cs c Hl Hin. pose proof (i_cmdq _ _ _ _ _ _ _ _ _ _ _ _ _ _ _ _ _ HI _ _ _ Hl Hin) as Hc.
       destruct c; simpl in *; try exact I; try tauto.
       destruct m; try exact I. eapply relayed_typed; eassumption.
-    + intros n c Hin. apply (i_app _ _ _ _ _ _ _ _ _ _ _ _ _ _ _ _ HI _ _ Hin).
-  - intros n c Hin. apply (i_app _ _ _ _ _ _ _ _ _ _ _ _ _ _ _ _ HI _ _ Hin).
+    + intros n c Hin. apply (i_app _ _ _ _ _ _ _ _ _ _ _ _ _ _ _ _ _ HI _ _ Hin).
+  - intros n c Hin. apply (i_app _ _ _ _ _ _ _ _ _ _ _ _ _ _ _ _ _ HI _ _ Hin).
 Qed.
 
 Theorem originated_components_opted_in pr o :
@@ -632,6 +730,7 @@ Record peer_fine (T : tyid -> Prop) (pr : peer_state) : Prop := {
   pf_order : order_ok pr;
   pf_typed : typed_state pr;
   pf_app : app_cmds_ok pr;
+  pf_cmdq : p_panic pr = None -> p_cmdq pr = ∅;
   pf_relayed : forall m, relayed pr m -> msg_fine T m;
   pf_out : forall d m, In (d, m) (p_out pr) -> msg_fine T m;
 }.
@@ -667,7 +766,7 @@ Proof. intros H. destruct m; simpl; try tauto. intros [? ?]. split; [apply H|]; 
 
 Lemma peer_fine_mono (T T' : tyid -> Prop) pr : (forall t, T t -> T' t) -> peer_fine T pr -> peer_fine T' pr.
 Proof.
-  intros H [H1 H2 H3 H4 H5 H6]. constructor; try assumption.
+  intros H [H1 H2 H3 H4 Hc H5 H6]. constructor; try assumption.
   - intros m Hm. eapply msg_fine_mono; [exact H|apply H5; exact Hm].
   - intros d m Hm. eapply msg_fine_mono; [exact H|eapply H6; exact Hm].
 Qed.
@@ -676,9 +775,10 @@ Lemma frame_fine (T : tyid -> Prop) pr o :
   peer_fine T pr -> (forall t, wire_opted pr t -> T t) -> peer_fine T (frame pr o).
 Proof.
   intros Hf Hself. destruct (p_panic pr) eqn:Hp; [rewrite frame_panicked by congruence; exact Hf|].
-  destruct Hf as [Hq Ho Ht Ha Hr _].
+  destruct Hf as [Hq Ho Ht Ha Hc Hr _].
   destruct (frame_preserves_hyps pr o Hp Hq Ho Ht Ha) as (Q1 & Q2 & Q3 & Q4).
   constructor; try assumption.
+  - intros Hpf. apply frame_cmdq_empty; [exact Hp|apply Hc; exact Hp|exact Hpf].
   - intros m Hm. apply Hr. eapply relayed_frame; eassumption.
   - intros d m Hin. destruct m; try exact I.
     destruct (proj1 (originated_components_opted_in pr o Hp Hq Ho Ht Ha) _ _ _ _ Hin) as [H|(_ & Hw & Hs)].
@@ -759,9 +859,16 @@ Qed.
 Lemma relayed_ext pr pr' m : n_inbox pr' = n_inbox pr -> p_cmdq pr' = p_cmdq pr -> relayed pr' m -> relayed pr m.
 Proof. unfold relayed. intros -> ->. tauto. Qed.
 
+Lemma app_step_panic pr op : p_panic (app_step pr op) = None -> p_panic pr = None.
+Proof.
+  destruct op; unfold app_step; cbv zeta;
+    unfold add_child, insert_asset, upd_ent, set_panic; cbv zeta; repeat dmi;
+    intros H; first [exact H|simpl in H; congruence].
+Qed.
+
 Lemma app_step_fine (T : tyid -> Prop) pr op : peer_fine T pr -> op_ok pr op -> peer_fine T (app_step pr op).
 Proof.
-  intros [Hq Ho Ht Ha Hr Hout] Hok.
+  intros [Hq Ho Ht Ha Hc Hr Hout] Hok.
   destruct (app_step_static pr op) as (E1 & E2 & E3 & E4 & E5 & E6).
   pose proof (app_step_app_cmds pr op) as E7.
   constructor.
@@ -778,6 +885,7 @@ Proof.
   - unfold app_cmds_ok. rewrite E7. destruct op; try exact Ha. intros n' c' Hin. apply in_app_or in Hin as [Hin|[Heq|[]]].
     + eapply Ha; exact Hin.
     + injection Heq as <- <-. apply Hok.
+  - intros Hpn. rewrite E5. apply Hc. eapply app_step_panic; exact Hpn.
   - intros m Hm. apply Hr. eapply relayed_ext; [exact E4|exact E5|exact Hm].
   - rewrite E6. exact Hout.
 Qed.
@@ -787,7 +895,7 @@ Lemma inbox_fine (T : tyid -> Prop) pd src (l' : list msg) :
   (forall m, In m l' -> In m (default [] (n_inbox pd !! src)) \/ msg_fine T m) ->
   peer_fine T (pd <| n_inbox := <[src := l']> (n_inbox pd) |>).
 Proof.
-  intros [Hq Ho Ht Ha Hr Hout] Hl'.
+  intros [Hq Ho Ht Ha Hc Hr Hout] Hl'.
   assert (Hnew : forall from l m, <[src := l']> (n_inbox pd) !! from = Some l -> In m l ->
                    (exists l0, n_inbox pd !! from = Some l0 /\ In m l0) \/ msg_fine T m).
   { intros from l m Hl Hin. destruct (decide (from = src)) as [->|Hne].
@@ -799,10 +907,10 @@ Proof.
     intros from l u t v Hl Hin. cbn [n_inbox set] in Hl. destruct (Hnew _ _ _ Hl Hin) as [(l0 & H0 & H1)|[_ H]].
     + eapply T2; eassumption.
     + exact H.
-  - intros m [(from & l & Hl & Hin)|Hc].
+  - intros m [(from & l & Hl & Hin)|Hpend].
     + cbn [n_inbox set] in Hl. destruct (Hnew _ _ _ Hl Hin) as [(l0 & H0 & H1)|H]; [|exact H].
       apply Hr. left. exists from, l0. split; assumption.
-    + apply Hr. right. exact Hc.
+    + apply Hr. right. exact Hpend.
 Qed.
 
 Lemma deliver_out_fine (T : tyid -> Prop) g src out :
@@ -909,6 +1017,7 @@ Proof.
     + intros k cs c Hl. cbn in Hl. rewrite lookup_empty in Hl. discriminate.
     + intros n c [].
   - intros n c [].
+  - intros _. reflexivity.
   - intros m [(from & l & Hl & _)|(k & cs & c & Hl & _)]; cbn in Hl; rewrite lookup_empty in Hl; discriminate.
   - intros d m [].
 Qed.
@@ -944,6 +1053,19 @@ Proof.
   apply (pf_relayed _ _ Hf (MComp u t v)). left. exists src, l. split; assumption.
 Qed.
 
+(* item (2) read literally, on the reachable states: a component message emitted by a frame of a
+   (non-panicked) peer is a copy of a message of one of its inboxes, or is opted in on that peer *)
+Corollary C04_frame_of_reachable n tr p pr o :
+  trace_ok (init_global n) tr -> grun (init_global n) tr !! p = Some pr -> p_panic pr = None ->
+  forall dst u t v, In (dst, MComp u t v) (p_out (frame pr o)) ->
+    (exists from l, n_inbox pr !! from = Some l /\ In (MComp u t v) l) \/
+    (known pr u /\ wire_opted pr t /\ not_skin v).
+Proof.
+  intros Hok Hp Hpn dst u t v Hin. destruct (C04_global n tr Hok p pr Hp) as [Hq Ho Ht Ha Hc _ _].
+  destruct (proj1 (originated_components_opted_in pr o Hpn Hq Ho Ht Ha) _ _ _ _ Hin) as [H|H]; [left|right; exact H].
+  apply relayed_inbox; [apply Hc; exact Hpn|exact H].
+Qed.
+
 (* a component type that no peer registers never travels *)
 Corollary C04_unregistered_never_travels n tr t :
   trace_ok (init_global n) tr ->
@@ -956,9 +1078,12 @@ Proof.
   exact (Hno _ _ Hq Hw).
 Qed.
 
-(* The statement with the ORIGINATOR of each message (instead of "some peer") needs a ghost
-   origin carried through relays; the model's messages carry none, so it is only stated over an
-   explicit origin assignment: *)
+(* The global statement.  Messages of the model carry no origin, so "registered on its ORIGINATOR"
+   is not expressible over grun without a ghost origin threaded through the relays; what is proved
+   is "registered on some peer of the session" (registrations never shrink, so this is the peer that
+   originated it or a later registration elsewhere), together with C04_frame_of_reachable, which
+   says for every frame of every reachable peer that what is not a copy of an inbox message is
+   opted in on the emitting peer itself. *)
 Definition C04_global_statement : Prop :=
   forall n tr, trace_ok (init_global n) tr ->
   forall p pr src l u t v, grun (init_global n) tr !! p = Some pr -> n_inbox pr !! src = Some l ->
@@ -1167,6 +1292,8 @@ Print Assumptions unmarked_stays_untracked.
 Print Assumptions excluded_detector_silent.
 Print Assumptions frame_preserves_hyps.
 Print Assumptions app_step_order_ok.
+Print Assumptions frame_cmdq_empty.
 Print Assumptions C04_global.
+Print Assumptions C04_frame_of_reachable.
 Print Assumptions C04_unregistered_never_travels.
 Print Assumptions ex_trace_ok.
